@@ -9,6 +9,14 @@ Sub-checks (one per clause of the statement):
   C19.gsd          read_gsd over frame-append histories (explicit-state search, duck-typed frames)
   C19.gsd_dcd      read_gsd_dcd over (frame, DCD frame)-append histories + inconsistent companions
   C19.log          read_lammpslog over section-append histories
+Round 4 (docs/STRENGTHEN_TASK2.md; helpers in mc/ref/c19y.py):
+  C19.log_tail        end-of-file forms of a log (no final newline, blank last lines, wall-time line without newline, incomplete tails) - coverage gap L30
+  C19.centertype.class  lesson L2: the first frame selects nothing / everything, the coordinate style changes per frame
+  C19.forms.*         lessons L4 / L5: exact zeros in column values, positions on the origin, molecule type 0; numpy integers for ndim / ncol / keys,
+                      column lists as tuple / ndarray, header arguments as numpy scalars / float32 / integer / tuple / non-contiguous bounds;
+                      an empty column list raises ValueError (the source's documented refusal)
+  C19.sequence        lesson L6: explicit-state search over call words in forked children with freshly imported modules
+  (C19.gsd / C19.gsd_dcd: the DumpReader conversion is also requested with the options of the LAMMPS file types passed - lesson L1)
 """
 import itertools
 import os
@@ -17,7 +25,9 @@ import numpy as np
 
 from mc.harness import Result, Sub, digest
 from mc.lammps_text import bounds_of, frame_text
+from mc.ref import c03x as X3
 from mc.ref import c19x, io19
+from mc.ref import c19y as Y
 
 ASSUMPTIONS = [
     "dump data are dyadic (multiples of 2^-4 .. 2^-13) and printed with repr/%.16e, so read-back values are compared exactly (atol 1e-12)",
@@ -45,6 +55,16 @@ ASSUMPTIONS = [
     "scale slices: atom ids are 1..N of the frame; type labels have one to three digits; a column list may repeat a column, be descending and "
     "name the id/type/coordinate columns (the reader indexes the split line, nothing else); the list may hold numpy integers; real LAMMPS "
     "files end the ATOMS line and the atom lines with a blank; HOOMD type ids go up to 299 (typeid is uint32) and steps beyond 2^31",
+    "C19.log_tail: a log may end without a final newline (killed job, copied text), with one or more empty lines, or with the wall-time line without "
+    "newline; these are the same logs.  Logs whose LAST line consists of blanks only, and the empty file, make the unchanged reader raise "
+    "IndexError - reported as open (KNOWN_OPEN 'log_blank_tail') and not enumerated while listed",
+    "C19.forms: ndim / ncol / timestep / particle numbers / type-map keys and values may be numpy integers, a column list may be a tuple or an integer "
+    "ndarray, header bounds may be float32 / integer / Fortran-ordered / strided / read-only arrays or nested tuples holding the same numbers "
+    "(the header text must then be the same text); a molecule type may be 0; column values may be exact zeros printed as 0, -0, 0.0, 0e0; "
+    "an EMPTY column list is refused with ValueError (as the source documents) by the wrapper and through DumpReader; the molecule-centre reader is "
+    "scale-covariant (a file dilated by 2**-33 / 2**27 encodes the dilated box and positions) and returns unwrapped coordinates verbatim however far away",
+    "C19.sequence: what a call returns depends on its arguments and the file content only, not on earlier calls in the process",
+    "DumpReader(filetype=GSD / GSD_DCD) ignores moltypes / columnsids (documented for the LAMMPS molecular / vector file types only)",
 ]
 
 # Inputs on which the UNCHANGED tree violates the statement (reported, not yet repaired in /repo).  The guarded cases are not enumerated while
@@ -52,7 +72,10 @@ ASSUMPTIONS = [
 #   log_modern_header: LAMMPS >= 4May2022 prints the thermo header aligned with its columns ('      Step          Temp ...'); the reader looks for
 #       lines that START with 'Step ' and returns [] for such a log (every section lost, no error).  Witness: c19x.log_section(seed, 0, 2, 3, layout=2).
 #       Proposed repair: simulation_log.py L27 `val.lstrip().startswith("Step ")`.
-KNOWN_OPEN = []  # "log_modern_header" was repaired by /repo commit 422c0d5 (known_findings.json: fixed)
+#   log_blank_tail: a log whose last line holds blanks only ('   \n', '\t\n', trailing blanks without newline) and the EMPTY log file: `data[-1].split()[0]`
+#       (simulation_log.py L31) raises IndexError, every section is lost.  Witness: 'Step Temp\n0 1.5\nLoop time of 0.1 on 1 procs\n  \n' -> IndexError;
+#       '' (empty file) -> IndexError.  Proposed repair: simulation_log.py L30 `if data and data[-1].strip():` (instead of `if data[-1] != "\n":`).
+KNOWN_OPEN = []  # "log_blank_tail" was repaired by /repo commit a052573; "log_modern_header" was repaired by /repo commit 422c0d5 (known_findings.json: fixed)
 
 F32 = np.float32
 
@@ -346,15 +369,24 @@ def center_frames(case):
     m = {int(a): int(b) for a, b in case["map"]}
     n = len(case["types"])
     text, exps = "", []
+    c = {"2^-33": 2.0**-33, "2^27": 2.0**27}.get(case.get("dilate"), 1.0)  # lesson L9: the whole file dilated by a power of two (exact)
     for f in range(case["F"]):
-        lo = np.array(case["lo"], float) - f
-        L = np.array(LEDGE[:d]) * (2.0**f)
+        lo = (np.array(case["lo"], float) - f) * c
+        L = np.array(LEDGE[:d]) * (2.0**f) * c
         types = [case["types"][(i + f) % n] for i in range(n)]
+        if case.get("types_by_frame"):
+            types = list(case["types_by_frame"][f])
+        if case.get("styles"):
+            style = case["styles"][f]
         coords, truth = [], []
         for i in range(n):
             s = np.array(frac_of(i, f, d))
+            if case.get("zero_pos") and i == (f % n) and style != "x":
+                s = np.zeros(d)  # exactly on the cell origin (scaled / unwrapped styles: returned as it is)
             r = lo + s * L
             img = np.array([(i % 3) - 1, (i + f) % 2, -((i + 1) % 2)][:d]) * L
+            if case.get("far") and style == "xu":
+                img = np.array([[0, 2, -3, 4][(i + a + f) % 4] for a in range(d)]) * L  # several boxes away (lesson L7): returned verbatim
             if style == "xs":
                 coords.append(s.tolist())
                 truth.append(r)
@@ -372,6 +404,8 @@ def center_frames(case):
         exps.append({"timestep": fr["ts"], "nparticle": len(sel), "particle_type": np.array([m[types[i]] for i in sel], dtype=int),
                      "positions": np.array([truth[i] for i in sel], float).reshape(len(sel), d), "boxlength": L, "boxbounds": np.array(bb),
                      "realbounds": None, "hmatrix": np.diag(L)})
+        if c != 1.0:
+            exps[-1].update({"tol_" + k: 1e-12 * c for k in ("positions", "boxlength", "boxbounds", "hmatrix")})
     return text, exps, m
 
 
@@ -384,11 +418,16 @@ def run_center(case):
     d = case["d"]
     text, exps, m = center_frames(case)
     sig = {"d": d, "style": case["style"]}
+    form = case.get("form")
+    if form or case.get("klass"):
+        sig = dict(sig, slice=case.get("klass") or "forms", form=form)
     io19.put("c19c.dump", text)
-    m1, m2 = dict(m), dict(m)
-    rd = DumpReader("c19c.dump", ndim=d, filetype=DumpFileType.LAMMPSCENTER, moltypes=m1)
+    mk = (lambda: {np.int64(a): np.int64(b) for a, b in m.items()}) if form == "npkeys" else (lambda: dict(m))
+    nd = {"npndim": np.int64(d), "npkeys": np.int32(d)}.get(form, d)
+    m1, m2 = mk(), mk()
+    rd = DumpReader("c19c.dump", ndim=nd, filetype=DumpFileType.LAMMPSCENTER, moltypes=m1)
     rd.read_onefile()
-    s2 = read_lammps_centertype_wrapper("c19c.dump", d, m2)
+    s2 = read_lammps_centertype_wrapper("c19c.dump", nd, m2)
     R.elem = 0
     for tag, S in (("DumpReader", rd.snapshots), ("read_lammps_centertype_wrapper", s2)):
         R.elem += _cmp_snapshots(R, tag, S, exps, sig, ALL_KEYS)
@@ -434,6 +473,9 @@ def column_frames(case, seed_tab=0):
         types = [1 + (2 * i + f) % 3 for i in range(n)]
         coords = [(lo + np.array(frac_of(i, f, d)) * L).tolist() for i in range(n)]
         vals = [[io19.extra_value(case.get("seed", 0), f, i, c) for c in range(E)] for i in range(n)]
+        pvals = vals
+        if case.get("zeros"):
+            vals, pvals = Y.zero_values(vals, f)  # exact zeros printed as 0 / -0 / 0.0 / 0e0 / -0.0
         tilts = [1.0, -0.5, 2.0] if case.get("cell") == "tri" else None
         fr = {"ts": TS[f % 3] + 11 * f, "types": types, "lo": lo.tolist(), "L": L.tolist(), "tilts": tilts, "coords": coords}
         order = line_order(case["order"], n, f)
@@ -442,9 +484,9 @@ def column_frames(case, seed_tab=0):
             from PyMatterSim.writer.lammps_writer import write_dump_header
 
             bb = np.column_stack((lo, lo + L))
-            text += write_dump_header(fr["ts"], n, bb, " ".join(names)) + io19.atom_lines(fr, d, "x", order, vals, syntax)
+            text += write_dump_header(fr["ts"], n, bb, " ".join(names)) + io19.atom_lines(fr, d, "x", order, pvals, syntax)
         else:
-            text += io19.with_columns(frame_text(fr, d, "x", syntax, "pp pp pp", "none", order), names, vals, syntax)
+            text += io19.with_columns(frame_text(fr, d, "x", syntax, "pp pp pp", "none", order), names, pvals, syntax)
         rows = np.array([[i + 1, types[i]] + coords[i] + vals[i] for i in range(n)], float)
         bb, _ = bounds_of(fr, d)
         exps.append({"timestep": fr["ts"], "nparticle": n, "particle_type": np.array(types), "rows": rows, "boxlength": L,
@@ -477,15 +519,34 @@ def run_vector(case):
     for e in exps:
         e["positions"] = e["rows"][:, [c - 1 for c in cols]].reshape(e["nparticle"], len(cols))
     sig = {"d": d, "ncols": len(cols), "F": "1" if case["F"] == 1 else ">1"}
+    form = case.get("form")
+    if form:
+        sig = dict(sig, slice="forms", form=form, zeros=bool(case.get("zeros")))
     io19.put("c19v.dump", text)
-    c1, c2 = list(cols), list(cols)
-    rd = DumpReader("c19v.dump", ndim=d, filetype=DumpFileType.LAMMPSVECTOR, columnsids=c1)
+    if form == "empty":
+        # the source refuses an empty column list with ValueError: no other outcome (a silent empty table, another exception) is accepted
+        for tag, call in (("read_lammps_vector_wrapper", lambda: read_lammps_vector_wrapper("c19v.dump", d, [])),
+                          ("DumpReader", lambda: DumpReader("c19v.dump", ndim=d, filetype=DumpFileType.LAMMPSVECTOR, columnsids=[]).read_onefile()),
+                          ("read_lammps_vector_wrapper(empty tuple)", lambda: read_lammps_vector_wrapper("c19v.dump", d, ()))):
+            try:
+                call()
+                R.fail(f"{tag}: an empty column list was accepted (documented: ValueError)", sig=dict(sig, clause="empty_list"))
+            except ValueError:
+                pass
+        R.elem = 3
+        R.outcome("ValueError")
+        R.nontrivial = True
+        return R
+    mkc = {"tuple": lambda: tuple(cols), "ndarray": lambda: np.array(cols, dtype=np.int64), "np32list": lambda: [np.int32(c) for c in cols]}.get(form, lambda: list(cols))
+    nd = np.int64(d) if form in ("npndim", "ndarray") else d
+    c1, c2 = mkc(), mkc()
+    rd = DumpReader("c19v.dump", ndim=nd, filetype=DumpFileType.LAMMPSVECTOR, columnsids=c1)
     rd.read_onefile()
-    s2 = read_lammps_vector_wrapper("c19v.dump", d, c2)
+    s2 = read_lammps_vector_wrapper("c19v.dump", nd, c2)
     R.elem = 0
     for tag, S in (("DumpReader", rd.snapshots), ("read_lammps_vector_wrapper", s2)):
         R.elem += _cmp_snapshots(R, tag, S, exps, sig, ALL_KEYS)
-    if c1 != cols or c2 != cols:
+    if [int(c) for c in c1] != cols or [int(c) for c in c2] != cols or type(c1) is not type(mkc()):
         R.fail("the column list was modified by the reader", sig=dict(sig, clause="input"))
     R.outcome([[s.timestep, s.particle_type, s.positions] for s in s2.snapshots])
     R.nontrivial = max(e["nparticle"] for e in exps) >= 2 or len(cols) >= 2
@@ -516,8 +577,10 @@ def run_additions(case):
     text, exps = column_frames(case)
     want = np.array([e["rows"][:, case["ncol"]] for e in exps], float)
     sig = {"d": d, "F": "1" if case["F"] == 1 else ">1"}
+    if case.get("form"):
+        sig = dict(sig, slice="forms", form=case["form"], zeros=bool(case.get("zeros")))
     io19.put("c19a.dump", text)
-    A = read_additions("c19a.dump", case["ncol"])
+    A = read_additions("c19a.dump", np.int64(case["ncol"]) if case.get("form") == "npncol" else case["ncol"])
     if not isinstance(A, np.ndarray) or A.shape != want.shape or A.dtype.kind != "f":
         R.fail(f"read_additions: result of shape {getattr(A, 'shape', None)}, expected float array {want.shape} [frames, particles]",
                sig=dict(sig, clause="shape"))
@@ -629,6 +692,11 @@ def _gsd_execute(R, reg, d, dcdmode, frames, dcds, exps, hs):
         rd = DumpReader("./c19.gsd", ndim=d, filetype=DumpFileType.GSD)
         rd.read_onefile()
         runs.append(("DumpReader", rd.snapshots, t, None))
+        reg.gsd.clear()
+        t = reg.gsd["./c19.gsd"] = fresh()
+        rd = DumpReader("./c19.gsd", ndim=d, filetype=DumpFileType.GSD, moltypes={1: 2, 3: 1}, columnsids=[3, 4])  # options of the LAMMPS file types: ignored
+        rd.read_onefile()
+        runs.append(("DumpReader(GSD + moltypes + columnsids)", rd.snapshots, t, None))
     else:
         t, c = fresh(), fresh_dcd()
         runs.append(("read_gsd_dcd", read_gsd_dcd(t, c, d), t, None))
@@ -645,6 +713,13 @@ def _gsd_execute(R, reg, d, dcdmode, frames, dcds, exps, hs):
         rd = DumpReader("./c19.gsd", ndim=d, filetype=DumpFileType.GSD_DCD)
         rd.read_onefile()
         runs.append(("DumpReader", rd.snapshots, t, c))
+        reg.gsd.clear()
+        reg.dcd.clear()
+        t = reg.gsd["./c19.gsd"] = fresh()
+        c = reg.dcd["./c19.dcd"] = fresh_dcd()
+        rd = DumpReader("./c19.gsd", d, DumpFileType.GSD_DCD, {1: 2, 3: 1}, [3, 4])  # options of the LAMMPS file types: ignored
+        rd.read_onefile()
+        runs.append(("DumpReader(GSD_DCD + moltypes + columnsids)", rd.snapshots, t, c))
     for tag, S, t, c in runs:
         ntr += 1
         R.elem += _cmp_snapshots(R, tag, S, exps, hs, GSD_KEYS)
@@ -1152,6 +1227,231 @@ def run_scale_log(case):
     return R
 
 
+
+# ===================================================================================== round 4: C19.log_tail (end-of-file forms)
+def gen_log_tail(tier, seed):
+    depth = 2 if tier == "quick" else 3
+    for layout in (0, 1, 2):
+        for pre in ("long", "short"):
+            for Lw in range(0, depth + 1):
+                for word in itertools.product(range(len(Y.LOG_EVENTS)), repeat=Lw):
+                    yield {"layout": layout, "pre": pre, "word": list(word), "seed": seed}
+
+
+def run_log_tail(case):
+    from PyMatterSim.reader.simulation_log import read_lammpslog
+
+    R = Result()
+    seed, layout = case["seed"], case["layout"]
+    base = PREAMBLE[case["pre"]]
+    secs = []
+    for k, a in enumerate(case["word"]):
+        nz, r, c = Y.LOG_EVENTS[a]
+        t, names, rows = c19x.log_section(seed, k, r, c, layout)
+        base += io19.NOISE[nz] + t
+        secs.append((names, rows))
+    S = len(secs)
+    forms = list(Y.LOG_ENDS_COMPLETE) + list(Y.LOG_ENDS_INCOMPLETE)
+    if "log_blank_tail" not in KNOWN_OPEN:
+        forms += [f for f in Y.LOG_ENDS_BLANK if f != "empty" or (S == 0 and case["pre"] == "short" and layout == 0)]
+    R.elem = 0
+    outs = []
+    for form in forms:
+        text = Y.log_end(base, form, seed, S)
+        io19.put("c19t.log", text)
+        complete = form not in Y.LOG_ENDS_INCOMPLETE
+        ts = {"S": str(S) if S < 2 else ">=2", "tail": "complete" if complete else "incomplete", "slice": "log_tail",
+              "end": "blanks_only" if form in Y.LOG_ENDS_BLANK else "no_newline" if form.endswith("nonl") else "blank_lines" if "blank" in form else "newline"}
+
+        def sg(generic, **kw):
+            return dict(ts, clause=generic, **kw)
+
+        try:
+            frames = read_lammpslog("c19t.log")
+        except Exception as e:  # reported (never hidden): a valid log must not make the reader raise; the other end forms are still examined
+            R.fail(f"read_lammpslog raised {type(e).__name__}: {e} on a log with {S} complete sections (end of file: {form})", sig=sg("exception", exception=type(e).__name__))
+            continue
+        if not isinstance(frames, list) or (len(frames) != S if complete else len(frames) < S):
+            R.fail(f"{len(frames) if isinstance(frames, list) else type(frames).__name__} frames returned for a log with {S} complete sections (end of file: {form})",
+                   sig=sg("count"))
+            continue
+        R.elem += _cmp_sections(R, frames, secs, S, form, sg)
+        outs.append(len(frames))
+    R.states = len(forms)
+    R.outcome([S, [list(map(len, (rows for _, rows in secs)))], outs])
+    R.nontrivial = True
+    return R
+
+
+# ===================================================================================== round 4: C19.centertype.class (L2)
+CLASS_TYPES = [
+    [[1, 1, 1], [1, 2, 3], [3, 3, 3]],  # with the map {3: .}: nothing / one / every atom selected
+    [[3, 3, 3], [1, 1, 1], [3, 1, 3]],  # every atom first, then nothing, then ragged
+    [[1, 2, 2], [2, 1, 2], [2, 2, 1]],  # the selected id moves
+    [[2, 2, 2], [2, 2, 2], [1, 2, 3]],  # nothing selected until the last frame
+]
+CLASS_MAPS = [[[3, 1]], [[1, 2]], [[1, 2], [3, 1]], [[3, 0]], [[1, 0], [2, 1]]]
+
+
+def gen_center_class(tier, seed):
+    for d in (3, 2):
+        for ss in Y_STYLE_SEQS:
+            for lo in ORIGINS[:2]:
+                for tb in CLASS_TYPES:
+                    for m in CLASS_MAPS:
+                        for order in ([2, 0, 1], [0, 1, 2]):
+                            yield {"d": d, "style": ss[0], "styles": ss, "lo": lo[:d], "types": tb[0], "types_by_frame": tb, "order": order, "map": m, "F": 3,
+                                   "klass": "class", "zero_pos": lo is ORIGINS[1]}
+
+
+Y_STYLE_SEQS = [["x"] * 3, ["xs"] * 3, ["xu"] * 3, ["x", "xs", "xu"], ["xs", "xu", "x"], ["xu", "x", "xs"]]
+
+
+# ===================================================================================== round 4: C19.forms.* (L4 / L5)
+def gen_forms_center(tier, seed):
+    maps = [[[3, 1]], [[1, 2], [2, 1]], [[3, 0]], [[1, 0], [2, 1]], [[1, 3], [2, 0], [3, 0]]]
+    for d in (3, 2):
+        for style in ("x", "xs", "xu"):
+            for form in ("npkeys", "npndim", "plain"):
+                for types in ([1, 2, 3], [3, 3, 1], [2, 1, 2]):
+                    for m in maps:
+                        for F in (1, 3):
+                            yield {"d": d, "style": style, "lo": ORIGINS[1][:d], "types": types, "order": [1, 2, 0], "map": m, "F": F, "form": form, "zero_pos": True}
+            for dil in ("2^-33", "2^27", None):
+                for types in ([1, 2, 3], [3, 3, 1]):
+                    for m in maps[:2]:
+                        yield {"d": d, "style": style, "lo": ORIGINS[0][:d], "types": types, "order": [1, 2, 0], "map": m, "F": 3, "form": "dilated" if dil else "far",
+                               "dilate": dil, "far": True}
+
+
+def gen_forms_vector(tier, seed):
+    for d in (3, 2):
+        for E in (1, 3):
+            cl = col_lists(d, E, "quick")
+            for ci, cols in enumerate(cl):
+                for form in ("tuple", "ndarray", "np32list", "npndim"):
+                    for zeros in (True, False):
+                        if not zeros and (ci % 2 or tier == "quick"):
+                            continue
+                        for F in (1, 3):
+                            yield {"d": d, "E": E, "cols": cols, "F": F, "N": 3, "order": [2, 0, 1], "writer": "enc" if ci % 2 else "hdr", "vary": "cell",
+                                   "seed": seed, "form": form, "zeros": zeros}
+        for E in (1, 2):
+            for F in (1, 2):
+                yield {"d": d, "E": E, "cols": [], "F": F, "N": 2, "order": [1, 0], "writer": "enc", "vary": None, "seed": seed, "form": "empty"}
+
+
+def gen_forms_additions(tier, seed):
+    for d in (3, 2):
+        for E in (1, 2, 3):
+            for ncol in range(0, d + 2 + E):
+                for F in (1, 3):
+                    for form in ("npncol", "plain"):
+                        for syntax in ("decimal", "sci"):
+                            yield {"d": d, "E": E, "ncol": ncol, "F": F, "N": 3, "order": [1, 2, 0], "cell": "orth", "syntax": syntax, "vary": "cell",
+                                   "writer": "enc" if (ncol + F) % 2 else "hdr", "seed": seed, "form": form, "zeros": True}
+
+
+def gen_forms_header(tier, seed):
+    for d in (3, 2):
+        for b in Y.FBOUNDS:
+            for form in Y.HEADER_FORMS:
+                if form == "intbounds" and b == "dyadic":
+                    continue
+                for ts in (0, 7, 10**9):
+                    for n in (0, 1, 3, 1000):
+                        for addson in ("", "vx vy"):
+                            yield {"d": d, "b": b, "form": form, "ts": ts, "N": n, "addson": addson}
+
+
+def run_forms_header(case):
+    """same numbers in another storage form -> the same header text (and the text obeys the header grammar)"""
+    from PyMatterSim.writer.lammps_writer import write_data_header, write_dump_header
+
+    R = Result()
+    d, form = case["d"], case["form"]
+    bb = [list(x) for x in Y.FBOUNDS[case["b"]][:d]]
+    ts, n, addson = case["ts"], case["N"], case["addson"]
+    sig = {"d": d, "slice": "forms", "form": form, "addson": "names" if addson else "empty"}
+    plain = write_dump_header(ts, n, np.array(bb, float), addson)
+    a_ts, a_n, a_bb = Y.header_args(form, ts, n, bb)
+    keep = np.array(a_bb, float).copy()
+    h = write_dump_header(a_ts, a_n, a_bb, addson)
+    if not isinstance(h, str) or not isinstance(plain, str):
+        R.fail("write_dump_header did not return a string", sig=dict(sig, clause="layout"))
+        return R
+    _header_grammar(R, h, ts, n, bb, d, addson, sig)
+    if h != plain:
+        R.fail(f"write_dump_header: arguments stored as {form} give another text than the same numbers as int / float64 ndarray", sig=dict(sig, clause="storage"),
+               exp=plain, obs=h)
+    if not np.array_equal(np.array(a_bb, float), keep):
+        R.fail("write_dump_header changed its boxbounds argument", sig=dict(sig, clause="input"))
+    k = 1 + (ts % 3)
+    plain2 = write_data_header(n, k, np.array(bb, float))
+    b_n, b_k, b_bb = Y.header_args(form, n, k, bb)
+    h2 = write_data_header(b_n, b_k, b_bb)
+    if h2 != plain2:
+        R.fail(f"write_data_header: arguments stored as {form} give another text than the same numbers as int / float64 ndarray", sig=dict(sig, clause="storage_data"),
+               exp=plain2, obs=h2)
+    P = io19.parse_data_header(h2)
+    if P["counts"].get("atoms") != n or P["counts"].get("atom types") != k:
+        R.fail("data header: counts differ", sig=dict(sig, clause="atoms"), exp=[n, k], obs=P["counts"])
+    for a, ax in enumerate("xyz"[:d]):
+        if ax not in P["bounds"] or abs(P["bounds"][ax][0] - bb[a][0]) > 1e-12 or abs(P["bounds"][ax][1] - bb[a][1]) > 1e-12:
+            R.fail(f"data header: {ax} bounds differ from the input", sig=dict(sig, clause="bounds"), exp=bb[a], obs=P["bounds"].get(ax))
+    R.elem = 2
+    R.outcome([h, h2])
+    R.nontrivial = True
+    return R
+
+
+# ===================================================================================== round 4: C19.sequence (L6)
+def gen_sequence(tier, seed):
+    depth = 2 if tier == "quick" else 3
+    nl = len(Y.SEQ_LETTERS)
+    for Lw in range(1, depth + 1):
+        for word in itertools.product(range(nl), repeat=Lw):
+            if Lw == 3 and (len(set(word)) == 1 or len({Y.SEQ_LETTERS[k]["fn"] for k in word}) == 3):
+                continue  # length 3: only words in which two calls share a routine (the colliding ones)
+            yield {"word": list(word), "seed": seed}
+
+
+_SEQ_FRESH = {}
+
+
+def run_sequence(case):
+    io19.install_stubs()
+    R = Result()
+    seed = case["seed"]
+    names = [Y.SEQ_LETTERS[k]["id"] for k in case["word"]]
+    feat = {"slice": "sequence"}
+    payload = X3.fresh_child(Y.seq_child, case, Y.SEQ_MODS)
+    if "err" in payload:
+        R.fail(f"call sequence {names} raised {payload['err']}", sig=dict(feat, clause="exception"))
+        return R
+    for k in set(case["word"]):
+        if (seed, k) not in _SEQ_FRESH:
+            one = X3.fresh_child(Y.seq_child, {"word": [k], "seed": seed}, Y.SEQ_MODS)
+            if "err" in one:
+                R.fail(f"single call {Y.SEQ_LETTERS[k]['id']} raised {one['err']}", sig=dict(feat, clause="exception"))
+                return R
+            _SEQ_FRESH[(seed, k)] = one["ok"][0]
+    states = set()
+    for pos, (k, got) in enumerate(zip(case["word"], payload["ok"])):
+        lt = Y.SEQ_LETTERS[k]
+        ref = _SEQ_FRESH[(seed, k)]
+        if got != ref:
+            R.fail(f"call #{pos + 1} ({lt['id']}: {lt['fn']}) of the sequence {names} differs from the same call made first in a fresh process",
+                   sig=dict(feat, clause="stale", fn=lt["fn"], position="later" if pos else "first"), exp=str(ref)[:300], obs=str(got)[:300])
+        states.add(digest(got))
+    R.states = len(case["word"]) + 1
+    R.transitions = len(case["word"])
+    R.elem = len(case["word"])
+    R.outcome(sorted(states))
+    R.nontrivial = True
+    return R
+
+
 # ============================================================================================= subs
 def subs(tier, seed):
     q = tier == "quick"
@@ -1178,11 +1478,12 @@ def subs(tier, seed):
             bounds={"Nmax": 3 if q else 4}),
         Sub("C19.gsd", gen_gsd, run_gsd,
             rule="explicit-state search over frame-append histories, F<=3 (quick) / 4 (thorough), alphabet of 8 frames (N {1,3} x 2 typeid patterns x 2 boxes; step, positions depend on "
-                 "the position in the history; N may change between frames); every state: read_gsd, read_gsd_wrapper (2 paths), DumpReader on fresh duck objects, "
-                 "wrong ndim -> None, frame objects unchanged", bounds={"depth": 3 if q else 4, "alphabet": 8}),
+                 "the position in the history; N may change between frames); every state: read_gsd, read_gsd_wrapper (2 paths), DumpReader, DumpReader with "
+                 "moltypes + columnsids passed as well (options of the LAMMPS file types: ignored, lesson L1) on fresh duck objects, wrong ndim -> None, frame objects unchanged", bounds={"depth": 3 if q else 4, "alphabet": 8}),
         Sub("C19.gsd_dcd", gen_gsd_dcd, run_gsd,
             rule="explicit-state search over (frame, DCD frame)-append histories, F<=3 (quick) / 4 (thorough), N fixed per search (1 or 3), alphabet of 4; every state: read_gsd_dcd, "
-                 "wrapper (2 paths, sibling .dcd name), DumpReader; companions with one frame/atom more or less -> None; wrong ndim -> None; DCD closed",
+                 "wrapper (2 paths, sibling .dcd name), DumpReader, DumpReader with moltypes + columnsids passed positionally (ignored); companions with one frame/atom more or less "
+                 "-> None; wrong ndim -> None; DCD closed",
             bounds={"depth": 3 if q else 4, "alphabet": 4}),
         Sub("C19.log", gen_log, run_log,
             rule="explicit-state search over section-append histories: event = (noise before the section from 11 kinds incl. echoed multi-line/unbalanced quotes, rows 1-3, columns 2-4), depth 3 "
@@ -1214,5 +1515,39 @@ def subs(tier, seed):
                  "products), alternating with tables of R+1, R-1 rows and 1-3 row tables, 12 kinds of noise between the sections, 2 layouts, 4 tails; one log with 9 tables of ~3800 rows "
                  "(> 32767 lines); count, names and every value compared",
             bounds={"Smax": 12, "Rmax": 3801, "Cmax": 12}),
+        Sub("C19.log_tail", gen_log_tail, run_log_tail,
+            rule="END-OF-FILE forms of a log (coverage gap simulation_log.py L30): all section words of length <= " + ("2" if q else "3") + " over 4 events (noise none / blank / "
+                 "timing block / numeric-first text x rows 1-3 x columns 2-4) x 3 layouts (classic, single blanks, column-aligned header) x 2 preambles; every state "
+                 "closed with 7 complete ends (newline, NO final newline, 1 / 3 blank last lines, wall-time line without newline / + blank lines, timing block without "
+                 "newline) and 3 incomplete ends (numeric last row without newline, rows + blank line, header only without newline); count, names, every value",
+            bounds={"depth": 2 if q else 3, "events": len(Y.LOG_EVENTS), "ends": len(Y.LOG_ENDS_COMPLETE) + len(Y.LOG_ENDS_INCOMPLETE)}),
+        Sub("C19.centertype.class", gen_center_class, run_center,
+            rule="frames of another CLASS (lesson L2): 3 frames, N=3, types by frame such that the first frame selects nothing / everything / one atom and later frames "
+                 "differ (4 patterns) x 5 maps (incl. molecule type 0) x 6 style words (x / xs / xu constant or rotating per frame) x 2 origins (origin 0: an atom "
+                 "exactly on the origin in xs / xu frames) x 2 line orders x {2D,3D}; all fields of all frames, DumpReader and wrapper",
+            bounds={"F": 3, "N": 3}),
+        Sub("C19.forms.center", gen_forms_center, run_center,
+            rule="STORAGE FORMS / ZEROS (L4, L5): type map with numpy integer keys and values, ndim as numpy.int64 / int32, maps with molecule type 0, an atom exactly on the "
+                 "cell origin; {2D,3D} x styles x 3 type assignments x 5 maps x F {1,3}; plus (L7 / L9) files with unwrapped coordinates 0, +2, -3, +4 boxes away and the whole "
+                 "file dilated by 2**-33 / 2**27 (tolerance scaled alike)", bounds={"N": 3}),
+        Sub("C19.forms.vector", gen_forms_vector, run_vector,
+            rule="STORAGE FORMS / ZEROS: column list as tuple / int64 ndarray / list of numpy.int32 / with ndim numpy.int64; every second column value an exact zero printed "
+                 "as 0, -0, 0.0, 0e0, -0.0; all column lists of the quick alphabet x E {1,3} x F {1,3}; an EMPTY list must raise ValueError (wrapper, DumpReader, empty tuple)",
+            bounds={"N": 3}),
+        Sub("C19.forms.additions", gen_forms_additions, run_additions,
+            rule="STORAGE FORMS / ZEROS: ncol as numpy.int64; every second column value an exact zero (five spellings); every zero-based column x E {1,2,3} x F {1,3} x "
+                 "decimal / %.16e x encoder / write_dump_header headers", bounds={"N": 3}),
+        Sub("C19.forms.header", gen_forms_header, run_forms_header,
+            rule="STORAGE FORMS of the writers' arguments: timestep / N as numpy.int32 / int64, bounds as float32, int64, nested tuples, Fortran-ordered, strided view, "
+                 "read-only x 3 bounds sets (exact in every storage) x timesteps {0,7,1e9} x N {0,1,3,1000} x addson {'', 'vx vy'} x {2D,3D}; oracle: the same text "
+                 "as for int / float64 ndarray arguments + the header grammar (dump header) / data tokenizer (data header); arguments unchanged",
+            bounds={"forms": Y.HEADER_FORMS}),
+        Sub("C19.sequence", gen_sequence, run_sequence,
+            rule="explicit-state search over CALL SEQUENCES (lesson L6): words of length <= " + ("2" if q else "3 (length 3: two calls share a routine)") + " over 18 complete "
+                 "calls - write_dump_header 2D / 3D / without names / other bounds, write_data_header 2D / 3D, centre reader with two maps on one file, column reader with two "
+                 "lists on one file and on a file of the same name, size and first frame, read_additions likewise, read_lammpslog on two logs of the same name, size and "
+                 "first section, read_gsd on two trajectories with the same first frame - each word in a forked child with freshly imported modules; oracle: bit for bit "
+                 "the result of the same call made first in a fresh child",
+            bounds={"depth": 2 if q else 3, "letters": len(Y.SEQ_LETTERS)}),
     ]
     return s
